@@ -3,6 +3,7 @@ package main
 
 import (
 	"bytes"
+	"encoding/hex"
 	"encoding/json"
 	"fmt"
 	"math"
@@ -21,7 +22,8 @@ const prop = "C04"
 type Case struct {
 	Start    int    `json:"start"`
 	Count    int    `json:"count"`
-	Poisoned bool   `json:"poisoned"` // payload is a prefix of a larger buffer filled with 0xA5
+	Poisoned bool   `json:"poisoned"`           // payload is a prefix of a larger buffer filled with 0xA5
+	Data     string `json:"data_hex,omitempty"` // explicit payload (value sweep); empty = the position pattern
 	Default  uint8  `json:"default_order"`
 	Acc      string `json:"accessor"`
 	Addr     int    `json:"addr"`
@@ -287,8 +289,20 @@ type window struct {
 	w        spec.Window
 }
 
+// newValueWindow is newWindow with explicit payload bytes (the value sweep: accessors must not special-case data values).
+func newValueWindow(start int, d []byte, def uint8, res *ev.Result) *window {
+	w := newWindowFrom(start, len(d)/2, false, def, append([]byte(nil), d...), res)
+	if w != nil {
+		w.c.Data = fmt.Sprintf("%x", d)
+	}
+	return w
+}
+
 func newWindow(start, count int, poisoned bool, def uint8, res *ev.Result) *window {
-	d := payload(count, poisoned)
+	return newWindowFrom(start, count, poisoned, def, payload(count, poisoned), res)
+}
+
+func newWindowFrom(start, count int, poisoned bool, def uint8, d []byte, res *ev.Result) *window {
 	r, err := packet.NewRegisters(d, uint16(start))
 	if err != nil || r == nil {
 		res.Violate(ev.Violation{Check: "acc", Kind: "newregisters-refuses", Attrs: map[string]any{}, Msg: fmt.Sprintf("NewRegisters(%d bytes, %d): %v", len(d), start, err), Case: Case{Start: start, Count: count}})
@@ -327,7 +341,7 @@ func posClass(c Case) string {
 
 func (w *window) eval(c Case, res *ev.Result, lc *local) {
 	lc.evals++
-	c.Start, c.Count, c.Poisoned, c.Default = w.c.Start, w.c.Count, w.c.Poisoned, w.c.Default
+	c.Start, c.Count, c.Poisoned, c.Default, c.Data = w.c.Start, w.c.Count, w.c.Poisoned, w.c.Default, w.c.Data
 	o := callAcc(w.regs, c)
 	if !bytes.Equal(w.data, w.pristine) {
 		// an accessor that rewrites the shared payload makes every later read of those registers return something that
@@ -454,6 +468,73 @@ func run(tier string, shard, nsh int, res *ev.Result) {
 	}
 	var jobs []func(lc *local)
 	var windows int64
+	// value sweep: every 16-bit register value through every 16-bit / 8-bit / bit accessor; boundary 32- and 64-bit values
+	// through the wide accessors with every documented order; every byte value in strings
+	for chunk := 0; chunk < 16; chunk++ {
+		chunk := chunk
+		jobs = append(jobs, func(lc *local) {
+			for v := chunk * 4096; v < (chunk+1)*4096; v++ {
+				for _, def := range []uint8{0, spec.OrdLE} {
+					w := newValueWindow(100, []byte{byte(v >> 8), byte(v)}, def, res)
+					if w == nil {
+						return
+					}
+					for _, a := range []string{"Register", "Uint16", "Int16"} {
+						w.eval(Case{Acc: a, Addr: 100}, res, lc)
+					}
+					for _, h := range []bool{false, true} {
+						w.eval(Case{Acc: "Byte", Addr: 100, High: h}, res, lc)
+						w.eval(Case{Acc: "Uint8", Addr: 100, High: h}, res, lc)
+						w.eval(Case{Acc: "Int8", Addr: 100, High: h}, res, lc)
+					}
+					if v%257 == 0 || v < 512 || v > 65000 {
+						for b := 0; b < 16; b++ {
+							w.eval(Case{Acc: "Bit", Addr: 100, Bit: b}, res, lc)
+						}
+					}
+					w.eval(Case{Acc: "String", Addr: 100, Len: 2}, res, lc)
+					w.eval(Case{Acc: "StringWithByteOrder", Addr: 100, Len: 2, Order: spec.OrdLE}, res, lc)
+				}
+			}
+		})
+	}
+	jobs = append(jobs, func(lc *local) {
+		halves := []uint16{0, 1, 0x7F, 0x80, 0xFF, 0x100, 0x7FFF, 0x8000, 0x8001, 0xFFFE, 0xFFFF, 0x1234, 0xA5A5, 0x00FF, 0xFF00, 0x7F80, 0x3F80, 0x4000}
+		for _, a := range halves {
+			for _, b := range halves {
+				d := []byte{byte(a >> 8), byte(a), byte(b >> 8), byte(b)}
+				for _, def := range []uint8{0, spec.OrdLE | spec.OrdLowWordFirst} {
+					w := newValueWindow(7, d, def, res)
+					if w == nil {
+						return
+					}
+					for _, acc := range []string{"Uint32", "Int32", "Float32"} {
+						w.eval(Case{Acc: acc, Addr: 7}, res, lc)
+					}
+					for _, o := range orders7 {
+						for _, acc := range []string{"DoubleRegister", "Uint32WithByteOrder", "Int32WithByteOrder", "Float32WithByteOrder"} {
+							w.eval(Case{Acc: acc, Addr: 7, Order: o}, res, lc)
+						}
+					}
+				}
+				for _, c := range []uint16{0, 0xFFFF, 0x8000, 0x7FF0, 0x0001} {
+					d8 := []byte{byte(a >> 8), byte(a), byte(b >> 8), byte(b), byte(c >> 8), byte(c), byte(b), byte(a)}
+					w := newValueWindow(7, d8, 0, res)
+					if w == nil {
+						return
+					}
+					for _, acc := range []string{"Uint64", "Int64", "Float64"} {
+						w.eval(Case{Acc: acc, Addr: 7}, res, lc)
+					}
+					for _, o := range orders7 {
+						for _, acc := range []string{"QuadRegister", "Uint64WithByteOrder", "Int64WithByteOrder", "Float64WithByteOrder"} {
+							w.eval(Case{Acc: acc, Addr: 7, Order: o}, res, lc)
+						}
+					}
+				}
+			}
+		}
+	})
 	for _, count := range counts {
 		count := count
 		startSet := map[int]bool{}
@@ -539,6 +620,10 @@ func replay(check string, raw json.RawMessage, res *ev.Result) {
 		def = 0
 	}
 	w := newWindow(c.Start, c.Count, c.Poisoned, def, res)
+	if c.Data != "" {
+		d, _ := hex.DecodeString(c.Data)
+		w = newValueWindow(c.Start, d, def, res)
+	}
 	if w == nil {
 		return
 	}
